@@ -45,6 +45,45 @@ theorem axisHeading_sq (t : Bool) (s a b : Int) (hs : 0 ≤ s) :
   rcases axisHeading_eq_or_neg t s a b hs with h | h <;> rw [h]
   exact sq_neg _
 
+theorem sgn_mul (x s : Int) : sgn x * s = if x < 0 then -s else if x = 0 then 0 else s := by
+  unfold sgn; split
+  · omega
+  · split <;> omega
+
+/-- the heading along one axis of a torus, case by case: the direct difference while it is shorter than half
+    the circumference, the image through the edge when it is longer — and on the tie `|b - a| = s/2`
+    (`abs(h) < abs(inv)` is false) also the image through the edge, which is `a - b` -/
+theorem axisHeading_torus_cases (s a b : Int) (hd : iabs (b - a) ≤ s) :
+    (2 * iabs (b - a) < s → axisHeading true s a b = b - a) ∧
+    (2 * iabs (b - a) = s → axisHeading true s a b = a - b) ∧
+    (s < 2 * iabs (b - a) → axisHeading true s a b = b - a - sgn (b - a) * s) := by
+  simp only [axisHeading, if_true, sgn_mul]
+  refine ⟨fun h => ?_, fun h => ?_, fun h => ?_⟩
+  all_goals
+    unfold iabs at *
+    split <;> split <;> (try split) <;> (try split) <;> omega
+
+/-- following the heading from `a` arrives at `b` or at one of its two neighbouring periodic images -/
+theorem axisHeading_reaches (s a b : Int) :
+    a + axisHeading true s a b = b ∨ a + axisHeading true s a b = b + s ∨ a + axisHeading true s a b = b - s := by
+  simp only [axisHeading, if_true, sgn_mul]
+  split <;> split <;> (try split) <;> omega
+
+theorem axisHeading_flat (s a b : Int) : axisHeading false s a b = b - a := by simp [axisHeading]
+
+theorem sq_eq_zero {x : Int} (h : sq x = 0) : x = 0 := by
+  unfold sq at h
+  rcases Int.mul_eq_zero.mp h with h | h <;> exact h
+
+/-- the separation along one axis is 0 for equal coordinates and, on a torus, for coordinates exactly one
+    circumference apart (the two edges) — and for nothing else -/
+theorem axisDist_eq_zero_iff (t : Bool) (s a b : Int) (hs : 0 < s) :
+    axisDist t s a b = 0 ↔ a = b ∨ (t = true ∧ iabs (a - b) = s) := by
+  unfold axisDist
+  cases t
+  · simp; unfold iabs; split <;> omega
+  · simp only [if_true, true_and]; unfold iabs; split <;> omega
+
 /-- without a torus the separation is `|a - b|` -/
 theorem axisDist_flat (s a b : Int) : axisDist false s a b = iabs (a - b) := by simp [axisDist]
 
